@@ -397,6 +397,8 @@ type charOp struct {
 	Cp    bool   // checkPerms
 	HasV  bool   // g: a get function is registered
 	V     interface{}
+	HasG  bool // u, p: a get function (returning G) is registered while the write is made; a write does not consult it
+	G     interface{}
 	Puts  []putEntry
 }
 
@@ -425,6 +427,11 @@ func (o charOp) token() string {
 }
 
 func (o charOp) describe() string {
+	if o.HasG {
+		p := o
+		p.HasG = false
+		return p.describe() + " while OnValueGet returns " + mustEnc(o.G)
+	}
 	j := func(v interface{}) string {
 		if i, ok := v.(int); ok {
 			return fmt.Sprintf("int(%d)", i)
@@ -706,6 +713,11 @@ func genOps(r *rand.Rand, cc *charCase, withPut bool, putExtra int) []charOp {
 				o.Puts = append(o.Puts, e)
 			}
 		}
+		if (o.Kind == "u" || o.Kind == "p") && r.Intn(5) == 0 {
+			// drawn from a generator of its own: the stream of the other choices stays as it was
+			gr := rand.New(rand.NewSource(r.Int63()))
+			o.HasG, o.G = true, genValue(gr, cc, false)
+		}
 		ops = append(ops, o)
 	}
 	return ops
@@ -799,6 +811,10 @@ func runCharCase(cc *charCase, ops []charOp, put putRunner) []*stepObs {
 	for _, op := range ops {
 		o := &stepObs{}
 		cbs = nil
+		if op.HasG {
+			g := op.G
+			c.OnValueGet(func() interface{} { return g })
+		}
 		switch op.Kind {
 		case "u":
 			o.PanicMsg, o.Panicked = safely(func() {
@@ -828,6 +844,9 @@ func runCharCase(cc *charCase, ops []charOp, put putRunner) []*stepObs {
 			c.OnValueGet(nil)
 		case "p":
 			o.Panicked, o.Statuses, sub, o.PanicMsg = put(cc, op.Puts)
+		}
+		if op.HasG {
+			c.OnValueGet(nil)
 		}
 		o.Sub = sub
 		o.Cbs = cbs
